@@ -175,3 +175,34 @@ def boundary_cases():
     top = {"v": 3, "next": mid, "kids": [mid, leaf], "named": {"m": mid, "": leaf}}
     out.append((tree, top, {"recursive", "recursive_via_array", "recursive_via_map"}))
     return out
+
+
+def logical_edge_cases():
+    """Logical values at the edges of their domains: plain in an array, and as
+    a union branch that is the value type of a map in a record."""
+    import datetime as _dt
+
+    out = []
+
+    D, tz, td = _dt.datetime, _dt.timezone, _dt.timedelta
+    naive = [D(1970, 1, 1), D(1969, 12, 31, 23, 59, 59, 500000), D(1969, 12, 31, 23, 59, 59, 999999),
+             D(1969, 12, 31, 23, 59, 59), D(1955, 11, 5, 6, 15, 30, 123456), D(1, 1, 1, 0, 0, 0, 1),
+             D(1900, 1, 1, 0, 0, 0, 1), D(9999, 12, 31, 23, 59, 59, 999999), D(2514, 5, 30, 1, 53, 3, 999999),
+             D(1970, 1, 1, 0, 0, 0, 999), D(2024, 2, 29, 12, 30, 15, 999999)]
+    offs = [tz.utc, tz(td(hours=14)), tz(td(hours=-12)), tz(td(minutes=19, seconds=32)), tz(td(minutes=-1))]
+    aware = [n.replace(tzinfo=offs[i % len(offs)]) for i, n in enumerate(naive) if 2 < n.year < 9998]
+    edge = {
+        ("int", "date"): [_dt.date(1, 1, 1), _dt.date(9999, 12, 31), _dt.date(1969, 12, 31), _dt.date(1970, 1, 1), _dt.date(1600, 2, 29)],
+        ("int", "time-millis"): [_dt.time(0, 0, 0, 0), _dt.time(23, 59, 59, 999999), _dt.time(0, 0, 0, 999), _dt.time(12, 0, 0, 1000)],
+        ("long", "time-micros"): [_dt.time(0, 0, 0, 0), _dt.time(23, 59, 59, 999999), _dt.time(0, 0, 0, 1), _dt.time(12, 0, 0, 1000)],
+        ("long", "timestamp-millis"): aware,
+        ("long", "timestamp-micros"): aware,
+        ("long", "local-timestamp-millis"): naive,
+        ("long", "local-timestamp-micros"): naive,
+    }
+    for (k, lt), vals in edge.items():
+        t = {"type": k, "logicalType": lt}
+        out.append(({"type": "array", "items": t}, list(vals), {"logical_edge"}))
+        out.append(({"type": "record", "name": "LogE", "fields": [{"name": "seen", "type": {"type": "map", "values": ["null", t]}}]},
+                    {"seen": {"k%d" % i: v for i, v in enumerate(vals + [None])}}, {"logical_edge"}))
+    return out
